@@ -221,6 +221,28 @@ def corr(ctx):
                     ops.append(Op("llr %s %s %d %s %d,%d" % (tname, c, S * S, nv, x, y), " ".join(repr(float(v)) for v in row), cmp=_cmp_llr(tols),
                                   info={"site": site_s, "config": dict(cfg, point=[x, y], nv="per-symbol:" + str(nv), want=want)}, prop_ok=close))
                 ctx.count("soft_per_symbol_" + inst.kind, len(sub2))
+    # ---- pi/4-QPSK call histories: in training mode the alternation state carries over between calls; the soft output of a block
+    #      must be signed like the hard decision of the same object history (odd / even numbers of symbols seen before)
+    import torch, cmath
+    from kaira.modulations import pi4qpsk
+    rng = ctx.rng
+    for first_len in (1, 2, 3, 5):
+        for second_len in (1, 4, 7):
+            for gray in (True,):
+                mod = pi4qpsk.Pi4QPSKModulator(gray_coded=gray)
+                bits1 = torch.tensor([[float(rng.getrandbits(1)) for _ in range(2 * first_len)]])
+                bits2 = torch.tensor([[float(rng.getrandbits(1)) for _ in range(2 * second_len)]])
+                y1 = mod(bits1); y2 = mod(bits2)        # the modulator (training mode) carries its own alternation state the same way
+                y2n = y2 + torch.tensor([[complex(rng.uniform(-0.15, 0.15), rng.uniform(-0.15, 0.15)) for _ in range(second_len)]], dtype=y2.dtype)
+                dh, ds = pi4qpsk.Pi4QPSKDemodulator(), pi4qpsk.Pi4QPSKDemodulator()
+                dh(y1); ds(y1)
+                hard = dh(y2n).reshape(-1).tolist()
+                soft = ds(y2n, noise_var=0.1).reshape(-1).tolist()
+                agree = len(hard) == len(soft) and all(abs(l) < 1e-3 or ((l < 0) == (int(round(h)) == 1)) for h, l in zip(hard, soft))
+                ops.append(Op("gray 0", "0", nontrivial=False,
+                              info={"site": "modulations:pi4.soft.history", "config": {"symbols_before": first_len, "symbols": second_len, "hard": bstr(hard), "soft": [round(float(v), 3) for v in soft]}},
+                              prop_ok=agree))
+                ctx.count("pi4_soft_histories")
     return ops
 
 
@@ -236,7 +258,10 @@ def search(ctx, mismatches, broken, prop_fail):
             # a model/implementation difference on which the property itself (oracle) is satisfied is not a failing input
             continue
         seen.add(key)
-        if site.endswith(".hard"):
+        if site.endswith(".history"):
+            what = ("pi/4-QPSK demodulator (training mode) after a call with %s symbol(s): soft output %s of the next %s symbol(s) is not signed like the hard decision %s of an "
+                    "identical object with the same history" % (cfg.get("symbols_before"), cfg.get("soft"), cfg.get("symbols"), cfg.get("hard")))
+        elif site.endswith(".hard"):
             what = "%s: received point %s/%d is decided as %s, which is not the label of a nearest constellation point" % (cfg.get("inst"), cfg.get("point"), F, pf["impl"])
         else:
             what = "%s: soft output at point %s (noise variance %s) is [%s]; max-log LLRs by definition are %s" % (cfg.get("inst"), cfg.get("point"), cfg.get("nv"), cfg.get("soft", pf["impl"]), ["%.6g" % w for w in cfg.get("want", [])])
